@@ -449,3 +449,143 @@ pub fn c09(rng: &mut impl Rng, len: usize) -> Vec<Value> {
     }
     evs
 }
+
+/// C10: random operation sequences on one rule family over a pool of valid, invalid and
+/// duplicate-but-differently-identified rules; flow and isolation are probed for enforcement.
+pub fn c10(rng: &mut impl Rng, len: usize) -> Vec<Value> {
+    let fam = *pick(rng, &["flow", "iso", "hot", "cb", "sys"]);
+    let ress = ["r1", "r2", "r3"];
+    let mut pool: Vec<Value> = Vec::new();
+    for k in 0..10u64 {
+        let res = if k == 9 { "" } else { *pick(rng, &ress) };
+        let id = format!("{}{}", &fam[..1], k + 1);
+        let r = match fam {
+            "flow" => json!({"id": id, "res": res, "ref": "", "rel": "current", "calc": "direct", "ctl": "reject",
+                "thr": [if k == 8 { -1 } else { rng.gen_range(0..=4i64) }, 1], "warm": 0, "cold": 0, "maxq": 0, "I": 0}),
+            "iso" => json!({"id": id, "res": res, "thr": if k == 8 { 0 } else { rng.gen_range(1..=4u64) }}),
+            "hot" => json!({"id": id, "res": res, "metric": if rng.gen_bool(0.5) { "conc" } else { "qps" }, "ctl": "reject",
+                "idx": 0, "key": "", "thr": rng.gen_range(0..=3u64), "maxq": 0, "burst": rng.gen_range(0..=1u64),
+                "dur": if k == 8 { 0 } else { rng.gen_range(1..=2u64) }, "cap": 0, "spec": {}}),
+            "cb" => json!({"id": id, "res": res, "strat": *pick(rng, &["ecount", "eratio", "slow"]),
+                "retry": if k == 8 { 0 } else { *pick(rng, &[500u64, 1000]) }, "minreq": rng.gen_range(0..=2u64),
+                "I": 1000, "nb": 1, "maxrt": 0, "thr": [rng.gen_range(0..=1u64), 1]}),
+            _ => {
+                let metric = *pick(rng, &["load", "rt", "conc", "qps", "cpu"]);
+                let thr = if k == 8 { json!([-1, 1]) } else if metric == "load" { json!([rng.gen_range(0..=4u64), 4]) } else { json!([rng.gen_range(0..=5u64), 1]) };
+                json!({"id": id, "metric": metric, "thr": thr, "strat": *pick(rng, &["none", "bbr"])})
+            }
+        };
+        // hot: slow-only field equality nuance is avoided (all reject); cb: maxrt fixed
+        pool.push(r);
+    }
+    // duplicates under another id
+    for k in 0..3 {
+        let mut d = pool[k].clone();
+        d["id"] = json!(format!("{}d{}", &fam[..1], k + 1));
+        pool.push(d);
+    }
+    let mut evs = vec![json!({"e": "reset", "t": 0, "obs": 0, "cfg": {"nt": 20, "It": 10000, "n": 2, "I": 1000}})];
+    let mut t: u64 = 0;
+    let key = |r: &Value| -> String { r.get("res").and_then(|x| x.as_str()).unwrap_or("").to_string() };
+    for _ in 0..len {
+        t += 1;
+        let op = rng.gen_range(0..10);
+        let subset = |rng: &mut dyn rand::RngCore, pool: &Vec<Value>, only: Option<&str>| -> Vec<Value> {
+            let mut v = Vec::new();
+            for r in pool {
+                if let Some(o) = only {
+                    if key(r) != o {
+                        continue;
+                    }
+                }
+                if rand::Rng::gen_range(rng, 0..4) == 0 {
+                    v.push(r.clone());
+                }
+            }
+            v
+        };
+        match op {
+            0..=2 => evs.push(json!({"e": "load", "fam": fam, "op": "all", "t": t, "rules": subset(rng, &pool, None)})),
+            3 | 4 if fam != "sys" => {
+                let res = if rng.gen_range(0..12) == 0 { "" } else { *pick(rng, &ress) };
+                let rules = if res.is_empty() { vec![pool[0].clone()] } else { subset(rng, &pool, Some(res)) };
+                evs.push(json!({"e": "load", "fam": fam, "op": "res", "res": res, "t": t, "rules": rules}));
+            }
+            5 | 6 | 7 => {
+                let r = pick(rng, &pool).clone();
+                evs.push(json!({"e": "load", "fam": fam, "op": "append", "t": t, "rules": [r]}));
+            }
+            8 if fam != "sys" => evs.push(json!({"e": "load", "fam": fam, "op": "clearres", "res": *pick(rng, &ress), "t": t, "rules": []})),
+            9 => evs.push(json!({"e": "load", "fam": fam, "op": "clear", "t": t, "rules": []})),
+            _ => evs.push(json!({"e": "load", "fam": fam, "op": "all", "t": t, "rules": subset(rng, &pool, None)})),
+        }
+        if fam == "flow" || fam == "iso" {
+            // every statistic window is empty after 25 s; the probe leaves nothing in flight
+            t += 25_000;
+            evs.push(json!({"e": "probe", "fam": fam, "res": *pick(rng, &ress), "n": rng.gen_range(0..=5u64), "t": t}));
+        }
+    }
+    evs
+}
+
+/// C11: take a history of one enforcement family and insert reloads at random points: the same
+/// rules under regenerated ids, in another order, with an unrelated resource added / changed /
+/// removed in the same call, through load-all or load-for-resource.
+pub fn with_reloads(rng: &mut impl Rng, evs: Vec<Value>, fam: &str, res: &str) -> Vec<Value> {
+    // the rules in force (last load of the family)
+    let mut cur: Vec<Value> = Vec::new();
+    let mut out = Vec::new();
+    let mut k = 0;
+    for ev in evs {
+        let is_load = ev["e"] == "load" && ev["fam"] == fam;
+        if is_load {
+            cur = ev["rules"].as_array().cloned().unwrap_or_default();
+        }
+        let t = ev["t"].clone();
+        out.push(ev.clone());
+        if !is_load && !cur.is_empty() && ev["e"] != "reset" && rng.gen_range(0..6) == 0 {
+            k += 1;
+            let mut rules: Vec<Value> = cur
+                .iter()
+                .map(|r| {
+                    let mut r = r.clone();
+                    r["id"] = json!(format!("{}~{}", r["id"].as_str().unwrap().split('~').next().unwrap(), k));
+                    r
+                })
+                .collect();
+            // another order
+            if rules.len() > 1 && rng.gen_bool(0.5) {
+                rules.reverse();
+            }
+            let mine: Vec<Value> = rules.iter().filter(|r| r["res"] == res).cloned().collect();
+            let mut reload = if rng.gen_bool(0.5) && !mine.is_empty() {
+                // per-resource replacement of the resource under test
+                let others: Vec<Value> = rules.iter().filter(|r| r["res"] != res).cloned().collect();
+                rules = mine.clone();
+                rules.extend(others);
+                json!({"e": "load", "fam": fam, "op": "res", "res": res, "t": t, "rules": mine})
+            } else {
+                // an unrelated resource comes, changes or goes in the same call
+                rules.retain(|r| r["res"] != "rz");
+                if rng.gen_bool(0.6) {
+                    let mut z = cur[0].clone();
+                    z["id"] = json!(format!("z~{}", k));
+                    z["res"] = json!("rz");
+                    if z.get("thr").map(|x| x.is_array()).unwrap_or(false) {
+                        z["thr"] = json!([rng.gen_range(1..=5u64), 1]);
+                    } else {
+                        z["thr"] = json!(rng.gen_range(1..=5u64));
+                    }
+                    rules.push(z);
+                }
+                json!({"e": "load", "fam": fam, "op": "all", "t": t, "rules": rules})
+            };
+            if let Some(tn) = ev.get("tn") {
+                reload["tn"] = tn.clone();
+            }
+            cur = rules;
+            out.push(reload);
+        }
+    }
+    out
+}
